@@ -71,6 +71,10 @@ def expected_cloud(s):
 
 def check_derived(b):
     fails = []
+    for k, want in getattr(b, "given", {}).items():
+        key, attr = k.split(".")
+        v = getattr(b[key], attr)
+        if isinstance(v, H.EmptyExplainableObject) or not qclose(v.value, want * u.dimensionless): fails.append(f"constructor-input-not-kept:{k}: {v} != {want}")
     for key, exp in (("video_job", expected_video(b["video_job"])), ("webapp_job", expected_webapp(b["webapp_job"])), ("genai_job", expected_genai(b["genai_job"])[0]),
                      ("genai", expected_genai(b["genai_job"])[1]), ("gpu", expected_gpu_server(b["gpu"])), ("cloud", expected_cloud(b["cloud"]))):
         for attr, want in exp.items():
@@ -109,16 +113,20 @@ def plain_twin(b):
     from efootprint.core.hardware.gpu_server import GPUServer
     cp = lambda eq: SourceValue(eq.value)
     cloud, gpu = b["cloud"], b["gpu"]
-    def plain_server(name, s, extra_ram, extra_compute, compute_unit):
+    def plain_server(name, s, extra_ram, extra_compute, compute_unit, extra_kw=None):
+        extra_kw = extra_kw or {}
         cls = GpuPlainServer if compute_unit == u.gpu else Server
         return cls(name, server_type=SourceObject(s.server_type.value), carbon_footprint_fabrication=cp(s.carbon_footprint_fabrication), power=cp(s.power),
                       lifespan=cp(s.lifespan), idle_power=cp(s.idle_power), ram=cp(s.ram), compute=cp(s.compute), power_usage_effectiveness=cp(s.power_usage_effectiveness),
                       average_carbon_intensity=cp(s.average_carbon_intensity), server_utilization_rate=cp(s.server_utilization_rate),
                       base_ram_consumption=SourceValue(s.base_ram_consumption.value + extra_ram), base_compute_consumption=SourceValue(s.base_compute_consumption.value + extra_compute),
-                      storage=Storage.ssd(name + " storage"))
+                      storage=Storage.ssd(name + " storage"), **extra_kw)
     vid, web, gen = b["video"], b["webapp"], b["genai"]
     ram_cloud = vid.base_ram_consumption.value + (web.base_ram_consumption.value if not isinstance(web.base_ram_consumption, H.EmptyExplainableObject) else 0 * u.GB)
-    p_cloud = plain_server("plain cloud", cloud, ram_cloud, 0 * u.cpu_core, u.cpu_core)
+    given = getattr(b, "given", {})
+    # inputs the user gave to the builder are carried to the plain server from what was GIVEN, not from what the builder kept
+    ckw = {"fixed_nb_of_instances": SourceValue(given["cloud.fixed_nb_of_instances"] * u.dimensionless)} if "cloud.fixed_nb_of_instances" in given else {}
+    p_cloud = plain_server("plain cloud", cloud, ram_cloud, 0 * u.cpu_core, u.cpu_core, ckw)
     p_gpu = plain_server("plain gpu", gpu, gen.base_ram_consumption.value, 0 * u.gpu, u.gpu)
     def pj(name, j, server, cls=Job):
         return cls(name, server=server, data_transferred=cp(j.data_transferred), data_stored=cp(j.data_stored), request_duration=cp(j.request_duration),
@@ -195,7 +203,11 @@ def _case(i):
         del SKIPPED[:]
         f = _cloud_chunk(kw)
         return {"case": f"cloud-derived|{kw[0]}..{kw[-1]} ({len(kw)} instance types)", "status": "fails" if f else "ok", "fails": f[:6], "skipped": list(SKIPPED)}
-    out = {"case": f"{kind}|{kw}|{(change[0], change[1], str(change[2]() .value if callable(change[2]) else change[2])) if change else None}", "status": "ok", "fails": []}
+    def _lab(c):
+        if not callable(c): return str(c)
+        try: return str(c().value)
+        except TypeError: return "<object of the same system>"
+    out = {"case": f"{kind}|{kw}|{(change[0], change[1], _lab(change[2])) if change else None}", "status": "ok", "fails": []}
     try:
         b = H.build_services_system(**kw)
         f = []
@@ -208,7 +220,9 @@ def _case(i):
                 if attr == "provider+model":
                     ModelingUpdate([[b["genai"].provider, SourceObject(val[0])], [b["genai"].model_name, SourceObject(val[1])]])
                 else:
-                    setattr(b[obj], attr, val() if callable(val) else val)
+                    import inspect as _insp
+                    v_ = (val(b) if len(_insp.signature(val).parameters) == 1 else val()) if callable(val) else val
+                    setattr(b[obj], attr, v_)
             except Exception as ex:
                 if H.is_float_cancellation_rejection(ex): raise
                 # every change of the alphabet is a valid builder input (each is also used to build a fresh system below):
@@ -220,7 +234,7 @@ def _case(i):
             if fresh is not None:
                 d = H.diff(H.snapshot(b.system), H.snapshot(fresh.system), rel=1e-9)
                 if d: f.append(f"not-refreshed:{[f'{o}.{a}' for o, a in d][:5]}")
-            f += compare_with_plain(b)
+            if not kw.get("second_video"): f += compare_with_plain(b)       # (the plain twin models one cloud server only)
         out["fails"] = f
         if f: out["status"] = "fails"
     except Exception as ex:
@@ -243,6 +257,7 @@ def run(tier, seed, procs=16):
     for p, m in MODELS: items.append(("faithful", {"provider": p, "model_name": m}, None))
     for p, i in INSTANCES[:2 if tier == "quick" else 6]: items.append(("faithful", {"cloud_provider": p, "instance_type": i}, None))
     items.append(("faithful", {"with_plain_job": False}, None))
+    items.append(("faithful", {"cloud_on_premise_fixed": 40}, None))
     Qv = lambda v, un: (lambda: SourceValue(v * un))
     items += [
         ("refresh", {}, ("video_job", "resolution", lambda: SourceObject("4K (3840 x 2160)"), {"video_resolution": "4K (3840 x 2160)"})),
@@ -266,6 +281,8 @@ def run(tier, seed, procs=16):
         ("refresh", {}, ("gpu", "ram_per_gpu", Qv(40, u.GB / u.gpu), None)),
         ("refresh", {}, ("gpu", "gpu_power", Qv(300, u.W / u.gpu), None)),
         ("refresh", {}, ("cloud", "instance_type", lambda: SourceObject("ent1-xl"), {"instance_type": "ent1-xl"})),
+        # the service job is moved to a service installed on another server that has no job yet
+        ("refresh", {"second_video": True}, ("video_job", "service", lambda b: b["video2"], {"video_on_second": True})),
     ]
     inst = all_cloud_instances()
     for k in range(0, len(inst), 64): items.append(("cloud-derived", inst[k:k + 64], None))
